@@ -7,8 +7,8 @@ CONSTANTS
   PhysPage <- MCPhys
   Bufs <- MCBufs2
   Ctxs = {1, 2}
-  Ranges <- MCRangesQ
-  KWrites <- MCKWritesQ
+  Ranges <- MCRangesT
+  KWrites <- MCKWritesT
   MaxCmds = 3
   Contract = TRUE
   Deviations = {"dirty_per_context"}
